@@ -740,7 +740,25 @@ type Evaluator struct {
 }
 
 func NewEvaluator(m Model) *Evaluator {
-	return &Evaluator{M: m, cache: map[*Term]uint64{}}
+	return &Evaluator{M: m, cache: map[*Term]uint64{}, UFs: map[string]map[uint64]uint64{}}
+}
+
+// Prime records the solver's interpretation of the uninterpreted-function
+// applications seen so far (model entries named like the application's define-fun).
+func (e *Evaluator) Prime(apps []*Term) {
+	for _, t := range apps {
+		if v, ok := e.M[fmt.Sprintf("t%d", t.id)]; ok {
+			a := e.Eval(t.A)
+			tab := e.UFs[t.Name]
+			if tab == nil {
+				tab = map[uint64]uint64{}
+				e.UFs[t.Name] = tab
+			}
+			if _, dup := tab[a]; !dup {
+				tab[a] = v
+			}
+		}
+	}
 }
 
 func (e *Evaluator) Bool(t *Term) bool { return e.Eval(t) != 0 }
@@ -795,8 +813,18 @@ func (e *Evaluator) Eval(t *Term) uint64 {
 		}
 	case OpUF:
 		a := e.Eval(t.A)
-		if m := e.UFs[t.Name]; m != nil {
-			v = m[a]
+		tab := e.UFs[t.Name]
+		if tab == nil {
+			tab = map[uint64]uint64{}
+			e.UFs[t.Name] = tab
+		}
+		if r, ok := tab[a]; ok {
+			v = r
+		} else {
+			if mv, ok := e.M[fmt.Sprintf("t%d", t.id)]; ok {
+				v = mv
+			}
+			tab[a] = v
 		}
 	case OpFAdd:
 		v = math.Float64bits(math.Float64frombits(e.Eval(t.A)) + math.Float64frombits(e.Eval(t.B)))
@@ -889,6 +917,7 @@ type Printer struct {
 	ufs     map[string]bool
 	out     *strings.Builder
 	Vars    []*Term
+	UFApps  []*Term
 }
 
 func NewPrinter() *Printer {
@@ -958,6 +987,9 @@ func (p *Printer) Ref(t *Term) string {
 	n = fmt.Sprintf("t%d", t.id)
 	fmt.Fprintf(p.out, "(define-fun %s () %s %s)\n", n, sortStr(t), body)
 	p.defined[t] = n
+	if t.Op == OpUF {
+		p.UFApps = append(p.UFApps, t)
+	}
 	return n
 }
 
